@@ -18,6 +18,8 @@ type c04Ev struct {
 	Method string `json:"method,omitempty"`
 	Swap   bool   `json:"swap,omitempty"`
 	Exp    bool   `json:"expires,omitempty"`
+	Sec    int    `json:"sec,omitempty"` // tick: seconds the virtual clock advances
+	N      int    `json:"n,omitempty"`   // opt: repeat count (0 = once)
 }
 
 func (e c04Ev) String() string {
@@ -32,6 +34,13 @@ func (e c04Ev) String() string {
 			s += "~"
 		}
 		return s
+	case "tick":
+		return fmt.Sprintf("tick(%ds)", e.Sec)
+	case "opt":
+		if e.N > 1 {
+			return fmt.Sprintf("opt x%d", e.N)
+		}
+		return "opt"
 	case "sub":
 		return "backend-subscribe"
 	case "subresp":
@@ -114,8 +123,10 @@ func c04Exec(fl c04Flavor, hist []c04Ev) (string, string, string) {
 		backend  string // backend that got the INVITE
 		relayed  *WMsg
 		pinned   string // reference pin
+		pinnedAt int64  // virtual time of the first response that pinned it
 		answered map[int]bool
 	}
+	const lifetime = int64(1200e9)
 	ds := []*dlg{{answered: map[int]bool{}}, {answered: map[int]bool{}}}
 	subBackend, subPinned := "", ""
 	var subRelayed *WMsg
@@ -156,11 +167,16 @@ func c04Exec(fl c04Flavor, hist []c04Ev) (string, string, string) {
 		desc := fmt.Sprintf("step %d %v of %v (%s)", i, ev, hist, fl.Name)
 		w.Observe()
 		switch ev.Kind {
+		case "tick":
+			w.S.W.Advance(int64(ev.Sec) * 1e9)
+			w.S.Run()
 		case "opt":
-			m := MsgSpec{Method: "OPTIONS", RURI: fl.RURI, Vias: []string{"SIP/2.0/UDP " + ua + ";branch=" + branch()}, From: "<sip:other@ua.example.net>;tag=o", To: "<sip:bob@svc.example.com>", CallID: fmt.Sprintf("opt%d", seq), CSeq: "1 OPTIONS"}.Build()
-			w.SendUDP(ua, lst, m.Render())
-			if cl, d := expectOne(desc, w.Observe(), ""); cl != "" {
-				return "", cl, d
+			for k := 0; k < ev.N || k == 0; k++ {
+				m := MsgSpec{Method: "OPTIONS", RURI: fl.RURI, Vias: []string{"SIP/2.0/UDP " + ua + ";branch=" + branch()}, From: "<sip:other@ua.example.net>;tag=o", To: "<sip:bob@svc.example.com>", CallID: fmt.Sprintf("opt%d", seq), CSeq: "1 OPTIONS"}.Build()
+				w.SendUDP(ua, lst, m.Render())
+				if cl, d := expectOne(desc, w.Observe(), ""); cl != "" {
+					return "", cl, d
+				}
 			}
 		case "inv":
 			d := ds[ev.D]
@@ -192,12 +208,17 @@ func c04Exec(fl c04Flavor, hist []c04Ev) (string, string, string) {
 			if len(obs.Pkts) != 1 || obs.Pkts[0].To != ua {
 				return "", "response-not-relayed", fmt.Sprintf("%s: %s", desc, obs.Summary())
 			}
+			if d.pinned == "" {
+				d.pinnedAt = w.S.W.NowNS
+			}
 			d.pinned = d.backend
 		case "req":
 			d := ds[ev.D]
 			if d.pinned == "" {
 				return "", "invalid", ""
 			}
+			// C15 owns what happens once the lifetime has elapsed: from then on this dialog is a don't-care here
+			expired := w.S.W.NowNS-d.pinnedAt >= lifetime-2e9
 			from, to := fl.From(ev.D)+";tag="+fl.FTag(ev.D), fl.To(ev.D)+";tag="+fl.TTag(ev.D)
 			if ev.Swap {
 				from, to = to, from
@@ -211,8 +232,10 @@ func c04Exec(fl c04Flavor, hist []c04Ev) (string, string, string) {
 			}
 			m := MsgSpec{Method: ev.Method, RURI: fl.RURI, Vias: []string{"SIP/2.0/UDP " + ua + ";branch=" + branch()}, From: from, To: to, CallID: fl.CallID(ev.D), CSeq: fmt.Sprintf("%d %s", 10+seq, ev.Method), Extra: extra}.Build()
 			w.SendUDP(ua, lst, m.Render())
-			if cl, dd := expectOne(desc, w.Observe(), d.pinned); cl != "" {
-				return "", cl, dd
+			if obs := w.Observe(); !expired {
+				if cl, dd := expectOne(desc, obs, d.pinned); cl != "" {
+					return "", cl, dd
+				}
 			}
 		case "sub":
 			if subBackend != "" {
@@ -272,6 +295,12 @@ func c04Exec(fl c04Flavor, hist []c04Ev) (string, string, string) {
 		}
 		sort.Ints(codes)
 		fmt.Fprintf(&b, "d%d:%v,%s,%s,%v|", i, d.invited, d.backend, d.pinned, codes)
+		if w.S.W.NowNS > 2e9 {
+			fmt.Fprintf(&b, "at%d|", d.pinnedAt/1e9)
+		}
+	}
+	if w.S.W.NowNS > 2e9 {
+		fmt.Fprintf(&b, "now=%d,sweep=%d|", w.S.W.NowNS/1e9, w.S.Proxies()[0].dialogBasedBackends.nextCleanTime.UnixNano()/1e9)
 	}
 	fmt.Fprintf(&b, "sub:%s,%s|", subBackend, subPinned)
 	p := w.S.Proxies()[0]
@@ -312,8 +341,43 @@ func c04Run(c *Ctx) {
 		depth = 8
 	}
 	evs := c04Events(c.Thorough())
+	type plan struct {
+		fl    c04Flavor
+		evs   []c04Ev
+		depth int
+	}
+	var plans []plan
 	for _, fl := range c04Flavors() {
-		fl := fl
+		plans = append(plans, plan{fl, evs, depth})
+	}
+	// a process that has been up for longer than the dialog timeout (1200 s): clock steps of 700 s
+	// between the events of one dialog; every purge instant falls inside some dialog's lifetime
+	timed := []c04Ev{{Kind: "tick", Sec: 700}, {Kind: "opt"}, {Kind: "inv", D: 0}, {Kind: "resp", D: 0, Code: 200}, {Kind: "req", D: 0, Method: "INFO"}, {Kind: "req", D: 0, Method: "BYE", Swap: true},
+		{Kind: "inv", D: 1}, {Kind: "resp", D: 1, Code: 200}, {Kind: "req", D: 1, Method: "INFO"}}
+	for _, fl := range c04Flavors() {
+		if fl.Name == "plain-udp" || (c.Thorough() && fl.Name == "plain-tcp") {
+			plans = append(plans, plan{fl, timed, depth + 2})
+		}
+	}
+	// volume: one dialog, then 12000 (thorough 60000) unrelated requests, then in-dialog requests
+	if c.Worker == 5%c.NWorkers {
+		n := 12000
+		if c.Thorough() {
+			n = 60000
+		}
+		fl := c04Flavors()[0]
+		h := []c04Ev{{Kind: "inv", D: 0}, {Kind: "resp", D: 0, Code: 200}, {Kind: "req", D: 0, Method: "ACK"}, {Kind: "opt", N: n}, {Kind: "req", D: 0, Method: "INFO"}, {Kind: "req", D: 0, Method: "BYE", Swap: true}}
+		_, cl, detail := c04Exec(fl, h)
+		c.Res.Executions++
+		c.Res.Evaluations++
+		c.Res.Nontrivial++
+		c.Res.Transitions += int64(n + 5)
+		if cl != "" && cl != "invalid" {
+			c.Violate(cl+"|volume|"+h[len(h)-1].typ(), cl, fmt.Sprintf("after %d unrelated requests: %s", n, clip(detail, 1500)), c04Case{fl.Name, h})
+		}
+	}
+	for _, pl := range plans {
+		fl, evs, depth := pl.fl, pl.evs, pl.depth
 		st, tr, done := BFSReplay(c, depth, evs, true, func(h []c04Ev) (string, bool) {
 			key, cl, detail := c04Exec(fl, h)
 			c.Res.Executions++
@@ -349,7 +413,7 @@ func c04Run(c *Ctx) {
 
 func init() {
 	addCheck(&Check{ID: "C04", Level: "model_checking",
-		Rule:   "explicit-state BFS by replay over histories (depth 6, thorough 8) of two INVITE dialogs plus one backend-issued SUBSCRIBE dialog over three backends: events {unrelated OPTIONS, initial INVITE d, 180(with Expires)/200/486 with to-tag from the chosen backend's configured address, in-dialog ACK/BYE/INFO/UPDATE/re-INVITE/NOTIFY/refresh SUBSCRIBE/PRACK in both directions (From/To swapped) and OPTIONS/MESSAGE/REFER/PUBLISH/an extension method in one direction per dialog, SUBSCRIBE issued by a backend, its 200 from the peer, NOTIFY / refresh SUBSCRIBE of that dialog}; five identifier flavours (plain, tags with '-' and equal From/To URIs with decorations, tel:/urn: parties, From/To URIs that differ only in letter case, TCP backends); state = reference pins + per-dialog progress + dialog table (dialog entries) + rotation cursor; non-trivial = history longer than two events",
+		Rule:   "explicit-state BFS by replay over histories (depth 6, thorough 8) of two INVITE dialogs plus one backend-issued SUBSCRIBE dialog over three backends: events {unrelated OPTIONS, initial INVITE d, 180(with Expires)/200/486 with to-tag from the chosen backend's configured address, in-dialog ACK/BYE/INFO/UPDATE/re-INVITE/NOTIFY/refresh SUBSCRIBE/PRACK in both directions (From/To swapped) and OPTIONS/MESSAGE/REFER/PUBLISH/an extension method in one direction per dialog, SUBSCRIBE issued by a backend, its 200 from the peer, NOTIFY / refresh SUBSCRIBE of that dialog}; five identifier flavours (plain, tags with '-' and equal From/To URIs with decorations, tel:/urn: parties, From/To URIs that differ only in letter case, TCP backends); plus a timed BFS (depth 8, thorough 10) over {clock step 700 s, unrelated OPTIONS, INVITE/200 and in-dialog requests of two dialogs} with dialogTimeout 1200 s (a process older than the timeout: every purge instant falls inside some dialog's lifetime; a dialog is a don't-care once its lifetime has elapsed); plus a volume run (one dialog, 12000 - thorough 60000 - unrelated requests, then in-dialog requests); state = reference pins + per-dialog progress + dialog table (dialog entries) + rotation cursor; non-trivial = history longer than two events",
 		Assume: []string{"no clock steps and no BYE answers / terminated NOTIFYs (C15 owns lifetime and early termination)", "client-transaction entries of the pin table are left out of the state key: they are consulted only for responses from unknown source addresses, which this alphabet does not produce"},
 		Run:    c04Run, Collapse: false,
 		Finalize: func(c *Ctx, m *Result) {
